@@ -62,7 +62,7 @@ async fn run_plan(plan: &Plan) -> Result<(Vec<(String, String)>, usize), String>
     for b in 0..plan.overflow_bursts as u64 {
         ex.step(&HOp::HoldFlush).await;
         for i in 0..500u64 {
-            ex.step(&HOp::Insert { k: 200_000 + b * 1000 + i, size: 28, loc: Loc::Default }).await;
+            ex.step(&HOp::Insert { k: 200_000 + b * 1000 + i, size: 300, loc: Loc::Default }).await;
         }
         ex.step(&HOp::EvictMem).await;
         ex.step(&HOp::ReleaseFlush).await;
